@@ -46,7 +46,10 @@ INVS = ['TypeOK', 'OwnEntry', 'SteadyForgets']
 WITNESSES = ['SupEmit', 'SupNoEmit', 'OverclaimWouldRaise', 'Incomparable', 'OlderNoCallback', 'DamagedAccepted',
              'DamagedRejected', 'UndecodableInSup', 'Burst', 'PublishInSup', 'SteadyEmit', 'HeardInSup', 'EnterSup',
              'ActRecvSV', 'ActPublish', 'ActTimerFire', 'ActTick', 'OutdatedZero',
-             'CallbackPublish', 'CallbackPublishInSup', 'CallbackPublishTwice']
+             'CallbackPublish', 'CallbackPublishInSup', 'CallbackPublishTwice',
+             'DupAccepted', 'DupOverclaimHidden', 'DupNotMax', 'AgainAccepted', 'AgainOutdated']
+DUP_WITNESSES = ('DupAccepted', 'DupOverclaimHidden', 'DupNotMax')      # need a packet alphabet with duplicates
+AGAIN_WITNESSES = ('AgainAccepted', 'AgainOutdated')                    # need Remember = TRUE
 DEV_SIG = {'devAgg': ('C18/SvsInst/TimerFire/SuppressionDecision/devAgg',
                       'suppression period in which a second vector was heard ends without a sync Interest although '
                       'local_sv is newer than the merge of the vectors heard (aggregate() merges with local_sv)'),
@@ -91,14 +94,15 @@ def flush(ctx):
 
 
 def consts(nodes, maxseq, packets, mode, dev, maxt, init=(0,), burst=2, sup=1, sync=9, jit=(0, 1), tick_ends=False,
-           hint=False, react=2):
+           hint=False, react=2, remember=False):
     return {'NodeOrder': '<- Nodes%d' % len(nodes), 'MaxSeq': maxseq,
             'InitSeqs': '{%s}' % ','.join(map(str, init)),
             'Packets': packets if packets.startswith('{') else '<- %s' % packets,
             'Mode': '"%s"' % mode, 'Dev': '{%s}' % ','.join('"%s"' % d for d in dev),
             'SupBase': sup, 'SyncBase': sync, 'Jitter': '{%s}' % ','.join(map(str, jit)),
             'MaxT': maxt, 'MaxBurst': burst, 'MaxReact': react, 'MaxEv': 0,
-            'TickEnds': 'TRUE' if tick_ends else 'FALSE', 'UseHint': 'TRUE' if hint else 'FALSE'}
+            'TickEnds': 'TRUE' if tick_ends else 'FALSE', 'UseHint': 'TRUE' if hint else 'FALSE',
+            'Remember': 'TRUE' if remember else 'FALSE'}
 
 
 # ------------------------------------------------------------------ stage A
@@ -106,31 +110,40 @@ def consts(nodes, maxseq, packets, mode, dev, maxt, init=(0,), burst=2, sup=1, s
 def stage_a(ctx):
     w = ctx.pick(4, 16)
     pk2 = ctx.pick('PacketsReplay', 'PacketsFull')
-    runs = [('open', pk2, 2, 1, (0,)), ('impl', pk2, 2, 10, (0,))]
+    runs = [('open', pk2, 2, 1, (0,), NODES3, False), ('impl', pk2, 2, 10, (0,), NODES3, False)]
     if not ctx.quick:
-        runs += [('open', 'PacketsFull', 3, 1, (0, 1)), ('impl', 'PacketsPlain', 3, 10, (0, 1))]
-    for mode, pk, ms, maxt, init in runs:
+        runs += [('open', 'PacketsFull', 3, 1, (0, 1), NODES3, False), ('impl', 'PacketsPlain', 3, 10, (0, 1), NODES3, False)]
+    # the same vector again (history variable mem: the decodable packet most recently ignored / accepted):
+    # two nodes, so that the square of the packet alphabet stays small
+    runs += [('open', 'PacketsAgain', ctx.pick(1, 2), 1, (0,), NODES3[:2], True)]
+    for mode, pk, ms, maxt, init, nodes, remember in runs:
         name = 'Svs_A_%s_%s_%d' % (mode, pk, ms)
         cfg = os.path.join(tlc.BUILD, name + '.cfg')
         react = ctx.pick(1, 2)      # publications inside the missing-data callback (quick: B/C also cover 1 / 2)
-        tlc.write_cfg(cfg, constants=consts(NODES3, ms, pk, mode, (), maxt, init=init, react=react), invariants=INVS,
-                      properties=PROPS + ['Witnesses'], view='View')
+        tlc.write_cfg(cfg, constants=consts(nodes, ms, pk, mode, (), maxt, init=init, react=react, remember=remember),
+                      invariants=INVS, properties=PROPS + ['Witnesses'], view='View')
         r = tlc.run('SvsMC', cfg, workers=w, heavy=not ctx.quick, tag=name)
-        ctx.add_tlc('Svs exhaustive mode=%s packets=%s nodes=3 MaxSeq=%d, unbounded events' % (mode, pk, ms), r)
+        ctx.add_tlc('Svs exhaustive mode=%s packets=%s nodes=%d MaxSeq=%d%s, unbounded events' % (
+            mode, pk, len(nodes), ms, ', last ignored / accepted packet remembered' if remember else ''), r)
         if r.violated:
             finding(ctx, 'C18/spec/%s/%s' % (mode, r.violated), 'TLC: %s violated in Svs (mode %s)' % (r.violated, mode),
                    {'kind': 'tlc', 'trace': r.errtrace})
             continue
         # (TLC's -coverage costs a factor 4 here; the Act* witnesses establish that every action is taken)
         seen = set(re.findall(r'<<"WITNESS", "(\w+)">>', r.out))
-        miss = [x for x in WITNESSES if x not in seen and not (pk == 'PacketsPlain' and x.startswith('Damaged'))
-                and not (react < 2 and x == 'CallbackPublishTwice')]
+        if remember:
+            want = AGAIN_WITNESSES
+        else:
+            want = [x for x in WITNESSES if x not in AGAIN_WITNESSES
+                    and not (pk == 'PacketsPlain' and (x.startswith('Damaged') or x in DUP_WITNESSES))
+                    and not (react < 2 and x == 'CallbackPublishTwice')]
+        miss = [x for x in want if x not in seen]
         if miss:
             raise tlc.MachineryError('vacuous: witness transitions never seen in %s: %s' % (name, miss))
     # the properties must reject each named deviation (otherwise they could not see the findings)
     for dev, expect in (('aggLocal', ('SuppressionDecision',)), ('noSeq', ('MissingIffRaised', 'EntrywiseMax'))):
         cfg = os.path.join(tlc.BUILD, 'Svs_A_dev_%s.cfg' % dev)
-        tlc.write_cfg(cfg, constants=consts(NODES3, 2, 'PacketsReplay', 'open', (dev,), 1, react=0), invariants=INVS,
+        tlc.write_cfg(cfg, constants=consts(NODES3, 2, 'PacketsNoDup', 'open', (dev,), 1, react=0), invariants=INVS,
                       properties=PROPS, view='View')
         r = tlc.run('SvsMC', cfg, workers=w, heavy=False, tag='Svs_A_dev')
         ctx.add_tlc('Svs with deviation %s (must violate %s)' % (dev, '/'.join(expect)), r)
